@@ -47,6 +47,8 @@ carquet_status_t carquet_lz4_decompress(
     const uint8_t* const iend = src + src_size;
     uint8_t* op = dst;
     uint8_t* const oend = dst + dst_capacity;
+    int ended = 0;      /* the block ended with a literal-only sequence */
+    int had_match = 0;  /* at least one match was decoded */
 
     while (ip < iend) {
         /* Read token */
@@ -75,8 +77,13 @@ carquet_status_t carquet_lz4_decompress(
             op += lit_len;
         }
 
-        /* Check for end of block */
+        /* Check for end of block: the last sequence holds only literals, and
+         * after a match at least 5 literal bytes must close the block */
         if (ip >= iend) {
+            if (had_match && lit_len < 5) {
+                return CARQUET_ERROR_INVALID_COMPRESSED_DATA;
+            }
+            ended = 1;
             break;
         }
 
@@ -129,6 +136,12 @@ carquet_status_t carquet_lz4_decompress(
                 *op++ = *match++;
             }
         }
+        had_match = 1;
+    }
+
+    if (!ended) {
+        /* empty input, or a block that stops right after a match */
+        return CARQUET_ERROR_INVALID_COMPRESSED_DATA;
     }
 
     *dst_size = (size_t)(op - dst);
